@@ -8,7 +8,7 @@ rm -rf $W; mkdir -p $W; cd $W
 /verif/bin/vh gen -seed $SEED -ntrees $NT -per $PER
 /verif/bin/vh run -trees trees.ndjson -scen scen.ndjson -out rec.ndjson -workers 8
 mkdir spec; cp /verif/spec/* spec/; cd spec; ln -s ../rec.ndjson trace.ndjson; ln -s ../decls.ndjson decls.ndjson
-printf 'SPECIFICATION Spec\nCONSTANT Defects = {%s}\nCHECK_DEADLOCK FALSE\nPOSTCONDITION Post\n' "$DEF" > Trace_ArgParse.cfg
+printf 'SPECIFICATION Spec\nCONSTANT Defects = {%s}\nINVARIANT JudgeRecord\nCHECK_DEADLOCK FALSE\nPOSTCONDITION Post\n' "$DEF" > Trace_ArgParse.cfg
 JAVA_TOOL_OPTIONS="-Xss64m" timeout 1200 tlc -workers 1 -metadir $W/meta -config Trace_ArgParse.cfg Trace_ArgParse.tla > out.txt 2>&1 || true
 grep -A1 "CONSUMED" out.txt || tail -30 out.txt
 python3 - <<'PY'
